@@ -309,11 +309,11 @@ Definition run_nd (cfg : word) (ops impl : list word) : option (list word) :=
    4  final status, number of retries and bucket value are those of gRFC A6: one token per
       failed attempt with a retryable status or bad pushback, +tokenRatio on success,
       retry refused iff the bucket is <= maxTokens/2 after the removal (or attempts used up)
-   5  finding clause: cur x jitter >= 2^63, the int64 conversion overflows (negative timer)
+   5  finding clause: cur x (0.8+0.4) >= 2^63, the int64 conversion can overflow (negative timer)
    6  finding clause: pushback ms x 10^6 overflows int64                                  *)
 
 Definition ovf_delay (p : rcfg) (k : Z) : bool :=
-  PrimFloat.leb two63 (jit_of (cur_of p k) rmax) || is_nan_b (jit_of (cur_of p k) rmax).
+  PrimFloat.leb two63 (cur_of p k * (c08 + c04))%float || is_nan_b (cur_of p k * (c08 + c04))%float.
 Definition int_lo (p : rcfg) (k : Z) : Z := to_i64 (cur_of p k * c08)%float.
 Definition int_hi (p : rcfg) (k : Z) : Z := to_i64 (cur_of p k * (c08 + c04))%float.
 
